@@ -576,6 +576,9 @@ def gen(c, quick):
             if cc == "GB" and rng.random() < 0.3:
                 use = rng.choice(["XI", "XU"])
             raw = formatted(rng, use, base)
+            if cc == "CH" and rng.random() < 0.5:
+                # one VAT suffix as people write it: any case, separated or not, possibly followed by punctuation
+                raw = raw + rng.choice([" ", "", "-", "  "]) + rng.choice(["MWST", "TVA", "IVA", "mwst", "tva", "Iva", "Mwst"]) + rng.choice(["", "", " ", ".", ")"])
             if use == "GR" and rng.random() < 0.1:
                 raw = rng.choice(["EL", "el ", "EL-"]) + base
             cases.append((cc + "/formatted", use, raw, base))
